@@ -278,6 +278,10 @@ class Run:
 
     def fail(self, key: str, case, what: str):
         """The real code violates the property on a concrete input."""
+        if "harness-glue:" in str(what):
+            # the harness could not drive the code (no frame of the exception is inside resonaate): a broken tie, not a failing input
+            self.disagree("harness-glue", case, what, "-")
+            return
         if len(self.oracle_failures) < 50:
             self.oracle_failures.append((key, case, what))
 
@@ -400,6 +404,9 @@ class Run:
                 except Exception as e:
                     self.log(f"search raised {type(e).__name__}: {e}")
                     found = None
+            if found and "harness-glue:" in str(found[2]):
+                self.log("search could not drive the code either (harness glue)")
+                found = None
             if found and any(k["key"] == found[0] for k in known):
                 # the search met only a listed finding: that is not the failing input of this broken tie
                 self.log(f"search met only the known finding {found[0]}")
@@ -481,12 +488,25 @@ class Run:
         (VERIF / "evidence" / f"{self.pid}.json").write_text(json.dumps(ev, indent=1, default=str))
 
 
+GLUE = "harness-glue:"
+
+
 def guarded(fn, *a, **k):
     """Run the real code; map exceptions to a small enum so both sides can be compared."""
     try:
         return ("ok", fn(*a, **k))
     except Exception as e:  # noqa: BLE001
-        return ("err", type(e).__name__)
+        # where was it raised?  An exception with no frame inside the resonaate sources comes from the harness's own glue
+        # (a helper it reaches for was renamed, a signature changed): that breaks the tie, it is not a failing input.
+        import traceback
+
+        frames = traceback.extract_tb(e.__traceback__)
+        in_repo = [f for f in frames if "/resonaate/" in f.filename and "/harness/" not in f.filename]
+        if in_repo:
+            return ("err", type(e).__name__)
+        last = frames[-1] if frames else None
+        where = f"{Path(last.filename).name}:{last.lineno}" if last else "?"
+        return ("err", f"{GLUE}{type(e).__name__} at {where}: {str(e)[:200]}")
 
 
 def corpus(pid: str):
